@@ -226,7 +226,7 @@ def _fix_key(key):
 
 def _ex(v):
     """Make a python/numpy scalar exact."""
-    if isinstance(v, (Sx, Fraction, _NaN, SymBool, core.Qx)):
+    if isinstance(v, (Sx, Fraction, _NaN, SymBool, core.Qx, core.AbsSx)):
         return v
     if isinstance(v, (bool, _np.bool_)):
         return bool(v)
@@ -1215,7 +1215,11 @@ def sinc(x):
 
 
 def log(x):
-    raise NotEncodable('log')
+    return _map1(lambda v: _sx(v).log(), x)
+
+
+def arctan(x):
+    return _map1(lambda v: _sx(v).arctan(), x)
 
 
 def __getattr__(name):
